@@ -28,8 +28,16 @@ def base_scenario(seed):
     sc.par_init("mantis", 0)
     sc.par_set_key("mantis", 0, sc.rb(16), rounds=7, mode=0)
     sc.par_crypt("mantis", 0, sc.rb(72), tweak=sc.rb(72))
+    # the "huge request" events on a small request (gib=0), and a CPU model
+    sc.par_huge("mantis", 0, 0, 19 * 8, sc.rb_nz(8), enc=True, tweak=sc.rb(8))
+    sc.ctr_huge("s128", 0, 0, 9 * 16 + 5, [0, 1, 8], tail=7)
     sc.ctr_cleanup("s128", 0)
     sc.par_cleanup("mantis", 0)
+    sc.raw("cpu maxleaf=13 sse2=1 osxsave=1 avx2=0 top=0 noise=1")
+    sc.ctr_init("s128", 1)
+    sc.ctr_cleanup("s128", 1)
+    sc.raw("cpu off=1")
+    sc.raw("env")
     sc.quiesce()
     return sc
 
@@ -65,6 +73,14 @@ def corruptions(lines):
     i = idx(lambda e: e["e"] == "par_crypt")
     mod("stray write reported", i, lambda e: e.__setitem__("stray", 1))
     mod("parallel output block 8 changed", i, lambda e: e["out"].__setitem__(64, e["out"][64] ^ 2))
+    i = idx(lambda e: e["e"] == "par_huge")
+    mod("one block of a huge parallel request differs", i, lambda e: e.__setitem__("diff", 1))
+    i = idx(lambda e: e["e"] == "ctr_huge")
+    mod("a sampled key-stream block of a huge CTR request changed", i, lambda e: e["samples"][2]["b"].__setitem__(0, e["samples"][2]["b"][0] ^ 1))
+    mod("last bytes of a huge CTR request changed", i, lambda e: e["tailb"].__setitem__(6, e["tailb"][6] ^ 1))
+    if any(e["e"] == "cpu" and e.get("on") == 1 and e.get("ok") == 1 for e in evs):
+        i = idx(lambda e: e["e"] == "ctr_init", 1)
+        mod("back end beyond the (emulated) CPU model", i, lambda e: e.__setitem__("be", "v256"))
     # structural corruptions
     i = idx(lambda e: e["e"] == "ctr_encrypt", 0)
     dropped = [json.dumps(x) for k, x in enumerate(evs) if k != i]
